@@ -1,0 +1,9 @@
+//go:build verif
+
+package updogv1
+
+// Type invariants of the generated message types, for the deductive verifier in /verif (govc). Comments only.
+// A oneof field that is set holds a non-nil wrapper: guaranteed by protobuf-go's decoder for every message that
+// comes from the wire (assumption "protobuf.decoder.nonnil"); proved at every store in this repository.
+
+//@ fieldinv Query_Expression.Value: typeof($v) != 0 ==> iref($v) != nil
